@@ -1,0 +1,21 @@
+//go:build verif
+
+package litestream
+
+import "context"
+
+// This file exists only under the `verif` build tag. It exposes the unexported
+// upload loop with an explicit file limit (the monitor calls it with
+// r.MaxSyncLTXFiles) so that an external verification harness can exercise the
+// `limited` path synchronously.
+
+// VerifSyncOnce runs one r.syncOnce(ctx, maxSyncLTXFiles).
+func (r *Replica) VerifSyncOnce(ctx context.Context, maxSyncLTXFiles int) (synced, limited bool, err error) {
+	res, err := r.syncOnce(ctx, maxSyncLTXFiles)
+	return res.synced, res.limited, err
+}
+
+// VerifSync runs r.sync(ctx, maxSyncLTXFiles), the loop the monitor uses.
+func (r *Replica) VerifSync(ctx context.Context, maxSyncLTXFiles int) error {
+	return r.sync(ctx, maxSyncLTXFiles)
+}
